@@ -217,7 +217,7 @@ class NetworkGraph(AbstractBaseIR):
                 if not scalar_edges:
                     continue
 
-                delays, spreads, nodes, add_delay = self._collect_delays_from_edges(scalar_edges)
+                delays, spreads, nodes, add_delay = self._collect_delays_from_edges(scalar_edges, dde_approx=dde_approx)
 
                 # add synaptic buffer to output variables with delay
                 if add_delay:
@@ -308,7 +308,7 @@ class NetworkGraph(AbstractBaseIR):
 
         return edges_new
 
-    def _collect_delays_from_edges(self, edges):
+    def _collect_delays_from_edges(self, edges, dde_approx: int = 0):
         means, stds, nodes = [], [], []
         for s, t, e in edges:
 
@@ -322,7 +322,9 @@ class NetworkGraph(AbstractBaseIR):
             n_slots = max(len(self.edges[s, t, e]['target_idx']), 1)
             if v is None or np.sum(v) == 0:
                 v = [0] * n_slots
-                discretize = True
+                # delays that are realized as ODE chains (`dde_approx`) stay in time units: the rate of the chain is
+                # order/delay, not order/(delay in steps)
+                discretize = not dde_approx
             else:
                 discretize = False
                 v = self._process_delays(v, discretize=discretize)
@@ -555,7 +557,8 @@ class NetworkGraph(AbstractBaseIR):
                 rate_val = rates[slot_indices[0]]
 
                 # Build chain input: use source var directly when group covers all its elements
-                if sorted(src_indices) == list(range(n_src_var)):
+                if sorted(src_indices) == list(range(n_src_var)) or n_src_var == 1:
+                    # (a scalar source feeds every slot of the group by broadcasting)
                     chain_in = var
                 elif G == 1:
                     chain_in = f"index({var}, {src_indices[0]})"
